@@ -43,15 +43,6 @@ CFG = {
         "the implementation is tied to the model only on the generated values/histories (correspondence), not by proof",
     ],
     "predicates": {
-        "C13.nested_value_cache_stale": _probe({"nested_after_sort", "nested_after_reassign", "nested_after_shrink",
-                                                "nested_write_after_detach"}, "STATE-MISMATCH"),
-        "C13.nil_typed_map_set_panics": _probe({"nilmap_set"}, "HOSTPANIC: assignment to entry in nil map"),
-        "C13.defineproperty_without_value_panics": _probe({"defprop_novalue_mapsimple", "defprop_novalue_mapreflect",
-                                                           "defprop_novalue_struct"}, "HOSTPANIC: runtime error: invalid memory address"),
-        "C13.nil_embedded_pointer_panics": _probe({"nil_embedded_ptr_get", "nil_embedded_ptr_json"},
-                                                  "HOSTPANIC: reflect: indirection through nil pointer to embedded struct"),
-        "C13.go_array_out_of_range_panics": _probe({"array_push", "array_set_oob"}, "HOSTPANIC: reflect: array index out of range"),
-        "C13.nil_func_call_panics": _probe({"nil_func_call"}, "HOSTPANIC: reflect.Value.Call: call of nil function"),
         "C13.pointer_to_func_export_loses_pointer": _probe({"ptr_to_func_export"}, "STATE-MISMATCH"),
     },
     "manifest": {
